@@ -61,10 +61,12 @@ class Path:
         self.n_susp = 0
         self.dead = False
         self.result = None                 # ("ret", value) | ("raise",)
+        self.neg_slices: list = []          # x[-n:] reached without n > 0 being established on the path
 
     def copy(self) -> "Path":
         p = Path(self.level_attr, self.self_name)
         p.env, p.level, p.base, p.conds, p.n_susp, p.dead, p.result = dict(self.env), self.level, self.base, list(self.conds), self.n_susp, self.dead, self.result
+        p.neg_slices = list(self.neg_slices)
         return p
 
 
@@ -146,6 +148,13 @@ class Conserve:
                     return self.resolve_min(("min", a, b), p)
             return None
         if isinstance(e, ast.Subscript) and isinstance(e.slice, ast.Slice) and e.slice.step is None:
+            lo_node = e.slice.lower
+            if isinstance(lo_node, ast.UnaryOp) and isinstance(lo_node.op, ast.USub) and e.slice.upper is None:
+                # x[-n:] means "the last n" only for n > 0: for n == 0 it is the whole of x
+                n = self.value(lo_node.operand, p)
+                proven = isinstance(n, dict) and (any(c == n and op == ">" for c, op in p.conds) or (set(n) == {""} and n[""] > 0))
+                if not proven:
+                    p.neg_slices.append((e, n))
             base = self.value(e.value, p)
             if isinstance(base, tuple) and base[0] == "param":
                 base = ("buf", lin_sym(f"len({base[1]})"))
@@ -287,6 +296,8 @@ class Conserve:
             v = self.value(val_node, p)
             targets = st.targets if isinstance(st, ast.Assign) else [st.target]
             for t in targets:
+                if isinstance(t, ast.Subscript):
+                    self.value(t, p)
                 if isinstance(st, ast.AugAssign):
                     cur = self.value(t, p)
                     if isinstance(cur, dict) and isinstance(v, dict) and isinstance(st.op, (ast.Add, ast.Sub)):
@@ -354,6 +365,8 @@ def check_function(fn: FunctionInfo, level_attr: str):
     c.finished = []
     out = []
     for p in c.run():
+        for node, n in p.neg_slices:
+            out.append(("negslice", p, f"`{ast.unparse(node)}` is reached without `{ast.unparse(node.slice.lower.operand)} > 0` being established"))
         if p.result is None or p.result[0] != "ret":
             continue
         if p.dead or p.level is None:
